@@ -18,6 +18,7 @@ package core
 
 import (
 	"encoding/json"
+	"fmt"
 )
 
 // RulePolicies are experimental switches that influence
@@ -174,6 +175,15 @@ func RuleFromJSON(ctx *Context, js []byte) (*Rule, error) {
 		}
 	}
 
+	if r.When != nil {
+		// A pattern that the matcher refuses is refused here.
+		// Otherwise (linear state) the rule is stored, and the
+		// matcher's complaint fails every event from then on.
+		if err := checkPattern(r.When.Pattern); err != nil {
+			return nil, NewSyntaxError("bad 'when' pattern: " + err.Error())
+		}
+	}
+
 	if r.When == nil && r.Schedule == "" {
 		return nil, NewSyntaxError("need either a 'when' or a 'schedule'")
 	}
@@ -198,6 +208,37 @@ func RuleFromJSON(ctx *Context, js []byte) (*Rule, error) {
 	Log(DEBUG, ctx, "core.RuleFromMap", "rule", r)
 
 	return r, nil
+}
+
+// checkPattern reports what the matcher would refuse in the pattern
+// whatever it is matched against: a variable as a key next to other
+// keys, and more than one variable directly in an array.
+func checkPattern(x interface{}) error {
+	switch vv := x.(type) {
+	case map[string]interface{}:
+		for k, v := range vv {
+			if IsVariable(k) && 1 < len(vv) {
+				return fmt.Errorf("can't have a variable as a key (%q) with other keys", k)
+			}
+			if err := checkPattern(v); err != nil {
+				return err
+			}
+		}
+	case []interface{}:
+		variables := 0
+		for _, v := range vv {
+			if s, is := v.(string); is && IsVariable(s) {
+				variables++
+				if 1 < variables {
+					return fmt.Errorf("can't have more than one variable in an array (%q)", s)
+				}
+			}
+			if err := checkPattern(v); err != nil {
+				return err
+			}
+		}
+	}
+	return nil
 }
 
 // RuleFromMap generates a Rule from a map.
